@@ -644,16 +644,17 @@ theorem ptc_sheet_number (s cov : DSymData) (hs : ValidTables s) (hsz : 1 ≤ s.
 /-- **ptc_selected_subgroup_is_Z3_abelianised.**  Whenever the model returns `Some(cov)`, the
     selection test has established the following about the group `G = ⟨1..n | relators⟩` that
     `fundamental_group` returned for the oriented cover (the orbifold group of `oc`: C09
-    `presents_orbifold_group`, there written over ℕ-indexed generators — that re-indexing is not
-    formalised here): `G` acts transitively on the rows of the selected valid table `t`; the
+    `presents_orbifold_group`, there written over ℕ-indexed generators; the re-indexing is
+    Proofs/Delaney3dReindex.lean, used in `ptc_selected_subgroup_of_orbifold_group`): `G` acts transitively on the rows of the selected valid table `t`; the
     stabiliser `K` of row 0 has index `rows(t)` (the sheet number of `cov` over `oc`); the model of
     `stabilizer` returned a presentation `⟨gens | srels⟩` with an **injective** homomorphism onto
     `K` (C13 `stabilizer_presentation_iso`: `⟨gens | srels⟩ ≅ K`); and the model of
     `abelian_invariants` of that presentation is `[0, 0, 0]` — which is the determinantal-divisor
     definition of C14 (`abelian_invariants_correct`, unconditional since the BigInt repair): the
     relation matrix of the presentation of `K` has `gens − 3` invariant factors, all equal to 1,
-    i.e. `K` abelianises to Z³.  (That `π₁(cov) ≅ K`, the covering-space correspondence, is not
-    proved; the Spec computes H₁ of `cov` from its own textbook presentation on every case.) -/
+    i.e. `K` abelianises to Z³.  (That `π₁(cov) ≅ K` — the covering-space correspondence — is proved
+    below: `ptc_cover_group_is_selected_subgroup`, `ptc_cover_has_H1_Z3`; this theorem is the
+    algebraic half, about the presentation only.) -/
 theorem ptc_selected_subgroup_is_Z3_abelianised (s cov : DSymData) (hs : ValidTables s) (hsz : 1 ≤ s.size)
     (h : pseudoToroidalCover s = .ok (some cov)) :
     ∃ (oc : DSymData) (fg : FG.FundGroup) (t : Tab)
@@ -1213,12 +1214,12 @@ theorem oriented_cover_is_table_cover_up_to_iso (s oc : DSymData) (hs : ValidSym
             (⟨0, hv.pos⟩ : Fin (CosetInvP.viewTab v).size)).comap (CoversP.rhoT hs hdim hfg hv) := by
   have hcovs := oriented_cover_is_covering s oc hs hsz hdim hoc
   have hk2 : (if s.view.isOriented then 1 else 2) ≤ 2 := by split <;> omega
-  obtain ⟨fg, hfg, cs, hcs, hall, _⟩ := C05.covers_classes_and_groups s hs hsz hdim hconn 2
+  obtain ⟨fg, hfg, cs, vs, hcs, hall, _, _⟩ := C05.covers_classes_and_groups s hs hsz hdim hconn 2
   obtain ⟨cs', hcs', _, _, hcompl⟩ := C05.covers_classifies_coverings s hs hsz hdim hconn 2
   have hce : cs' = cs := by rw [hcs] at hcs'; exact (Outcome.ok.inj hcs').symm
   rw [hce] at hcompl
   obtain ⟨c', hc', φ, hsize, hiso⟩ := hcompl oc _ hcovs hk2
-  obtain ⟨v, hv, hcov', _, hidx, _, ψ, hinj, hrange⟩ := hall c' hc'
+  obtain ⟨v, _, hv, hcov', _, hidx, _, ψ, hinj, hrange⟩ := forall₂_mem_right hall hc'
   have hrows : (CosetInvP.viewTab v).size = (if s.view.isOriented then 1 else 2) := by
     have h1 := hcov'.size
     rw [hsize, hcovs.size] at h1
@@ -1303,6 +1304,31 @@ theorem toroidal_cover_group_in_input_group (s cov : DSymData) (hs : ValidSym s)
   · rw [hindex, hφr, hidx, hΨi]
     have := hV.pos
     split <;> omega
+
+/-! ### 10. non-vacuity, kernel-checked -/
+
+set_option maxRecDepth 100000 in
+/-- **toroidal_cover_witness** — the hypotheses of §8 are satisfiable and the model does return.
+    The one-chamber euclidean 2D symbol `*632` (`C08.exData`: all operations fix the chamber,
+    m01 = 3, m12 = 6) is a valid connected symbol, and the model of `toroidal_cover` — evaluated BY
+    THE KERNEL (`decide +kernel`: `oriented_cover`, `fundamental_group`, `coset_tables` up to index 6
+    with `searchFuel`, `cover_for_table`, `orbit_types_2d`) — returns a cover with 12 chambers (the
+    6-sheeted cover of the 2-chamber oriented cover).  So every theorem of §8 and the 2D half of §9
+    applies to a concrete returned value.  (The analogous kernel evaluation of
+    `pseudo_toroidal_cover` on the one-chamber cubic symbol does not go through: reduction gets
+    stuck after minutes; conf/C15.json points to the differential cases instead.) -/
+theorem toroidal_cover_witness :
+    ValidSym C08.exData ∧ 1 ≤ C08.exData.size ∧ C08.exData.view.isConnected = true ∧
+    ∃ cov, toroidalCover C08.exData = .ok cov ∧ cov.size = 12 := by
+  refine ⟨C08.exData_valid, by decide +kernel, by decide +kernel, ?_⟩
+  have h : (match toroidalCover C08.exData with | .ok c => c.size == 12 | _ => false) = true := by
+    decide +kernel
+  cases hc : toroidalCover C08.exData with
+  | ok c =>
+    rw [hc] at h
+    exact ⟨c, rfl, by simpa using h⟩
+  | err => rw [hc] at h; cases h
+  | panic => rw [hc] at h; cases h
 
 /-! ### open (not theorems): the statements, for the record -/
 
